@@ -78,6 +78,7 @@ type cx struct {
 	logins []string // tokens obtained by the call itself
 	// permissions granted by a prep step on a scratch database (level as in permOf)
 	extraPerm map[string]int
+	created   string // database created by the call under test (removed afterwards: the server is shared by the cases of a process)
 }
 
 func (x *cx) ctx() context.Context {
@@ -273,6 +274,21 @@ func (x *cx) ensureUnloaded(db string) {
 		return
 	}
 	x.e.ic.UnloadDatabase(x.e.saCtx(defDBn), &schema.UnloadDatabaseRequest{Database: db})
+}
+
+// dropDB removes a scratch database (if it exists), so that databases do not pile up on the shared server.
+func (x *cx) dropDB(name string) {
+	if name == "" || name == sysDBn || name == defDBn {
+		return
+	}
+	for _, d := range dataDBs {
+		if d == name {
+			return
+		}
+	}
+	sys := x.e.saCtx(defDBn)
+	x.e.ic.UnloadDatabase(sys, &schema.UnloadDatabaseRequest{Database: name})
+	x.e.ic.DeleteDatabase(sys, &schema.DeleteDatabaseRequest{Database: name})
 }
 
 // restoreDB brings a data database back after a destructive call (reload, or recreate + replant).
@@ -474,14 +490,17 @@ func buildSpecs() map[string]*spec {
 
 	// ---------------------------------------------------------------- database management
 	m[svcI+"CreateDatabase"] = u(svcI+"CreateDatabase", clAdmin, roleSys, func(x *cx) proto.Message {
-		return &schema.Database{DatabaseName: x.e.fresh("ndb")}
-	})
+		x.created = x.e.fresh("ndb")
+		return &schema.Database{DatabaseName: x.created}
+	}).withCleanup(func(x *cx) { x.dropDB(x.created) })
 	m[svcI+"CreateDatabaseWith"] = u(svcI+"CreateDatabaseWith", clAdmin, roleSys, func(x *cx) proto.Message {
-		return &schema.DatabaseSettings{DatabaseName: x.e.fresh("ndbw"), MaxTxEntries: 64}
-	})
+		x.created = x.e.fresh("ndbw")
+		return &schema.DatabaseSettings{DatabaseName: x.created, MaxTxEntries: 64}
+	}).withCleanup(func(x *cx) { x.dropDB(x.created) })
 	m[svcI+"CreateDatabaseV2"] = u(svcI+"CreateDatabaseV2", clAdmin, roleSys, func(x *cx) proto.Message {
-		return &schema.CreateDatabaseRequest{Name: x.e.fresh("ndbv"), Settings: smallSettings()}
-	})
+		x.created = x.e.fresh("ndbv")
+		return &schema.CreateDatabaseRequest{Name: x.created, Settings: smallSettings()}
+	}).withCleanup(func(x *cx) { x.dropDB(x.created) })
 	m[svcI+"DatabaseList"] = u(svcI+"DatabaseList", clFiltered, roleNone, empty)
 	m[svcI+"DatabaseListV2"] = u(svcI+"DatabaseListV2", clFiltered, roleNone, func(*cx) proto.Message { return &schema.DatabaseListRequestV2{} })
 	m[svcI+"UpdateDatabase"] = u(svcI+"UpdateDatabase", clAdmin, roleAdmin, func(x *cx) proto.Message {
@@ -524,6 +543,10 @@ func buildSpecs() map[string]*spec {
 		}
 		x.e.ic.UnloadDatabase(sys, &schema.UnloadDatabaseRequest{Database: name})
 		x.target = name
+	}).withCleanup(func(x *cx) {
+		if strings.HasPrefix(x.target, "vd") {
+			x.dropDB(x.target)
+		}
 	})
 
 	// ---------------------------------------------------------------- SQL
